@@ -221,6 +221,10 @@ func (d *Driver) handleCallbacks(
 
 		return d.executeCallback(r.i, r.callbacks, r.b, r.fb, timeout)
 	case <-ctx.Done():
+		// wait for the reader to see the expired context and exit (it closes c when it does), so
+		// that it can not consume output that belongs to whatever operation comes next
+		<-c
+
 		return nil, fmt.Errorf("%w: timeout handling callbacks", util.ErrTimeoutError)
 	}
 }
